@@ -328,6 +328,13 @@ def main(tier):
                               'how': "flex <opts> -o a.c a.l with %option tables-file=\"t.tables\" (scanner loads t.tables with yytables_fload) "
                                      "versus the same rules with in-code tables; same inputs"},
                              no_input=kind in ('harness-error',))
+        # equivalence classes (yy_ec) against the NFA flex printed, the printed DFA, the NFA itself (coq/NfaSim.v): rule sets
+        # with equivalence classes only
+        import nfacheck
+        ncases = nfacheck.nfa_cases(rng.fork("ec"), tier)
+        ncases = [c for c in ncases if not any(o in ("-Cf", "-CF") for o in c['flex_opts'])][:(40 if tier == "quick" else 800)]
+        nresults = parallel_map(nfacheck.nfa_worker, ncases)
+        nfacheck.judge_nfa(ck, ncases, nresults, stats)
     ls_ok = sum(1 for r in results for l in r['lockstep'] if " OK " in l)
     ls_all = sum(len(r['lockstep']) for r in results)
     combos_seen = {}
@@ -341,6 +348,7 @@ def main(tier):
         "trusted_base": ["Coq 8.16.1 kernel (coqc, vm_compute)", "extraction + OCaml driver", "harness printers / table reader / back-end templates", "gcc, g++, m4"],
         "theorems": details,
         "evaluations": len(cases) + stats.get('optsets', 0),
+        "equivalence_class_tables_checked": stats.get('ec_tables_checked', 0), "nfa_dumps_checked": stats.get('nfa_checked', 0),
         "distinct_nontrivial": len(distinct),
         "rule": "rule sets x (table option, 7/8 bit, -B/-I, %array, back end) combinations, each lock-stepped against the same specification; "
                 "distinct = (rule set, combination) with a DFA of >= 3 states; plus the exhaustive option-compatibility table",
